@@ -867,10 +867,10 @@ def c08_spelling(text, spelled, n, m, D, E):
 
 
 @replay('c08_api')
-def c08_api(text, default_ns, default_ew, expect):
+def c08_api(text, default_ns, default_ew, expect, ocr=False):
     import pytrs
-    got = pytrs.find_twprge(text, default_ns=default_ns, default_ew=default_ew, preprocess=True)
-    d = pytrs.PLSSDesc(text, config=','.join(x for x in (default_ns, default_ew) if x))
+    got = pytrs.find_twprge(text, default_ns=default_ns, default_ew=default_ew, preprocess=True, ocr_scrub=ocr)
+    d = pytrs.PLSSDesc(text, config=','.join(x for x in (default_ns, default_ew, 'ocr_scrub' if ocr else None) if x))
     return got != [expect] or expect not in d.pp_desc, f'{text!r}: find_twprge {got}, pp_desc {d.pp_desc!r}, expected {expect}'
 
 
